@@ -362,9 +362,13 @@ def o203(ctx):
         ctx.finding(q, ifs[0], "the accepted target must be recorded for its source", ifs[0], m)
 
 
-def obligations():
+def _obligations():
     return [
         Obligation("O20.1", "all three kernels accept a candidate iff it is ahead of the source and inside the cone of half-angle max_angle", o201, floor=300),
         Obligation("O20.2", "candidate ball centred on the source points with radius max_thickness/voxel_size; row-space typing; 2to1 swap", o202, floor=16),
         Obligation("O20.3", "greedy one-to-one assignment: sorted by distance, taken tests and markers, tuple layout, thickness scaling", o203, floor=7),
     ]
+
+
+def obligations():
+    return _obligations() + [effects_obligation("C20")]
